@@ -20,16 +20,35 @@ def summary(pattern):
 _cache = {}
 
 
+_NORMALISE = [('std::option::Option', 'Option'), ('core::option::Option', 'Option'), ('std::result::Result', 'Result'), ('core::result::Result', 'Result'),
+              ('std::borrow::Cow', 'Cow'), ('std::fmt::Formatter', 'Formatter'), ('core::fmt::Formatter', 'Formatter'), ('std::fmt::Arguments', 'Arguments'),
+              ('std::num::NonZero', 'NonZero'), ('core::num::NonZero', 'NonZero')]
+
+
 def find_summary(func):
     if func in _cache:
         return _cache[func]
-    for name, rx, fn in SUMMARIES:
-        m = rx.match(func)
-        if m:
-            _cache[func] = (name, fn, m)
-            return _cache[func]
-    _cache[func] = None
+    key = func
+    for a, b in _NORMALISE:
+        if a in func:
+            func = func.replace(a, b)
+    for cand in (func, _strip_trait_paths(func)):
+        for name, rx, fn in SUMMARIES:
+            m = rx.match(cand)
+            if m:
+                _cache[key] = (name, fn, m)
+                return _cache[key]
+    _cache[key] = None
     return None
+
+
+_TRAIT_PREFIX = re.compile(r'\b(?:std|core|alloc)::(?:ops|str|convert|clone|cmp|iter|default|string|borrow|hash)::(?:traits::|function::|index::|deref::|range::)?'
+                           r'(?=(?:Index|IndexMut|FromStr|Deref|DerefMut|From|Into|TryFrom|TryInto|Clone|PartialEq|PartialOrd|Ord|Eq|Iterator|IntoIterator|DoubleEndedIterator|'
+                           r'ExactSizeIterator|Default|Try|FromResidual|ToString|ToOwned|Hash|Hasher|Extend|Fn|FnMut|FnOnce|AsRef|AsMut|Borrow|Range|RangeFrom|RangeTo|RangeFull|RangeInclusive)\b)')
+
+
+def _strip_trait_paths(f):
+    return _TRAIT_PREFIX.sub('', f)
 
 
 def deref(v):
@@ -421,6 +440,12 @@ def as_slice(v):
         return SliceV(v, 0, len(v))
     if isinstance(v, StrV):
         return SliceV(v.items, 0, len(v.items))
+    if isinstance(v, (bytes, bytearray)):
+        items = list(v)
+        return SliceV(items, 0, len(items))
+    if isinstance(v, str):
+        items = [ord(c) for c in v]
+        return SliceV(items, 0, len(items))
     raise Unsupported('as_slice %r' % (v,))
 
 
@@ -3297,3 +3322,41 @@ def cow_deref(m, mt, args, tys, dty):
 def cow_into_owned(m, mt, args, tys, dty):
     c = args[0]
     return copy_val(deref(c.fields[0])) if c.variant == 'Borrowed' else c.fields[0]
+
+
+@summary(r'<(?:\[.*\]|\[.*; \d+\]|std::vec::Vec<.*>|&\[.*\]) as PartialEq<(?:\[.*\]|\[.*; \d+\]|std::vec::Vec<.*>|&\[.*\]|&\[.*; \d+\])>>::(eq|ne)')
+def slice_eq(m, mt, args, tys, dty):
+    a, b = as_slice(args[0]), as_slice(args[1])
+    neg = mt.group(1) == 'ne'
+    if len(a) != len(b):
+        return neg
+    conds = []
+    for i in range(len(a)):
+        x, y = a.get(i), b.get(i)
+        if not is_sym(x) and not is_sym(y):
+            if x != y:
+                return neg
+        else:
+            conds.append(x == y)
+    r = z3.And(conds) if conds else True
+    if not neg:
+        return r
+    return (not r) if isinstance(r, bool) else z3.Not(r)
+
+
+@summary(r'<(?:str|&str|std::string::String|String) as (?:std::fmt::)?(?:Display|Debug)>::fmt')
+def str_display_fmt(m, mt, args, tys, dty):
+    f = deref(args[1])
+    f.out.extend(_apply_padding(list(str_items(args[0])), getattr(f, 'pad', {}), 0))
+    return mk_enum('Result', 'Ok', [UNIT()])
+
+
+@summary(r'<(?:std::num::|core::num::)?(?:ParseIntError|ParseFloatError)|(?:num_bigint::)?ParseBigIntError|std::str::Utf8Error|Utf8Error as (?:std::fmt::)?(?:Display|Debug)>::fmt#x')
+def _unused_err_fmt(m, mt, args, tys, dty):
+    pass
+
+
+@summary(r'<(?:(?:std::num::|core::num::)?ParseIntError|(?:std::num::|core::num::)?ParseFloatError|(?:num_bigint::)?ParseBigIntError) as (?:std::fmt::)?(?:Display|Debug)>::fmt')
+def err_display_fmt(m, mt, args, tys, dty):
+    deref(args[1]).out.extend(ord(c) for c in '<std/num-bigint parse error text>')
+    return mk_enum('Result', 'Ok', [UNIT()])
